@@ -364,7 +364,13 @@ func c05RunGroup(cfgBits, gopNum, dummyWait int, events []string) string {
 
 func init() {
 	ops["c05.group"] = func(a []string) string {
-		return c05Deadline(60*time.Second, func() string {
+		// the time a publish takes is bounded by its size: a small scenario gets a small budget (still seconds, i.e. many
+		// orders of magnitude above what it needs)
+		budget := 60 * time.Second
+		if len(a[3]) < 200000 {
+			budget = 6 * time.Second
+		}
+		return c05Deadline(budget, func() string {
 			return c05RunGroup(sint(a[0]), sint(a[1]), sint(a[2]), strings.Split(a[3], ","))
 		})
 	}
